@@ -61,6 +61,15 @@ Print Assumptions C14_failover_call.
 
 (* hit: in any sequential history (instants non-decreasing), whenever a call is answered from the store, fewer than
    cache_hits calls were answered from that stored result before it; HInv is kept with the served count updated *)
+(* failover whose store condition raises on the function's result: the caller gets that exception, the store is untouched,
+   the stored result is not served (the function did not raise); on all other results it is plain failover *)
+Theorem C14_failover_condition_raises : forall m now k ttl id, Z.odd id = true -> failc_call m now k ttl (XOk id) = (m, RRaise 1, true).
+Proof. exact failc_cond_raises. Qed.
+Print Assumptions C14_failover_condition_raises.
+Theorem C14_failover_condition_otherwise : forall m now k ttl o, (forall id, o = XOk id -> Z.odd id = false) -> failc_call m now k ttl o = fail_call m now k ttl o.
+Proof. exact failc_otherwise. Qed.
+Print Assumptions C14_failover_condition_otherwise.
+
 Theorem C14_hit_call : forall k ttl hits upd bg m tcur served now o, 0 < ttl -> tcur <= now -> HInv k ttl m tcur served ->
   let '(m', r, a) := hit_call m now k ttl hits upd bg o in
   HInv k ttl m' now (served_after a o served) /\
